@@ -31,6 +31,8 @@ type Obligation struct {
 	queryQF string
 	Candidate bool // Model is a candidate counterexample from a weakened query
 	Prefer []*Term
+	AuxNames []string
+	AuxVals  []*Term
 	Vals   []*Term // terms whose model values are wanted for replay
 	ValNames []string
 }
@@ -53,6 +55,7 @@ type Frame struct {
 	edgePC     map[[2]int]*Term
 	EntryState *State
 	callOrd    map[string]int
+	Exec       *Exec
 }
 
 type retRec struct {
@@ -98,6 +101,8 @@ type Exec struct {
 	iteDepth         int
 	Unroll           int
 	SafetyOff        bool
+	SafetyBounds     bool
+	CallsiteAssumptions map[string]int
 	SafetySkipped    int
 	heapTrace        map[string]*Sort
 }
@@ -118,7 +123,7 @@ type candCheck struct {
 func NewExec(E *Env) *Exec {
 	return &Exec{E: E, pre: map[string]*Term{}, heapSorts: map[string]*Sort{}, cands: map[string][]*Candidate{},
 		epochHeaps: map[string]*Term{}, modCache: map[string]*modSet{}, loopEntry: map[string]*State{},
-		ImmutableGlobals: map[string]bool{}, UsedTrusted: map[string]int{}, Uncontracted: map[string]int{}, Inlined: map[string]int{}, ghostTypes: map[string]*Sort{}, MaxInline: 4}
+		ImmutableGlobals: map[string]bool{}, CallsiteAssumptions: map[string]int{}, UsedTrusted: map[string]int{}, Uncontracted: map[string]int{}, Inlined: map[string]int{}, ghostTypes: map[string]*Sort{}, MaxInline: 4}
 }
 
 func (X *Exec) pos(p token.Pos) string {
@@ -136,6 +141,14 @@ func (X *Exec) oblige(st *State, kind, label, desc string, p token.Pos, goal *Te
 	if st.Dead {
 		return
 	}
+	if X.SafetyBounds && label == "" {
+		switch kind {
+		case "nil", "typeassert", "pre":
+			X.SafetySkipped++
+			st.assume(ts, goal)
+			return
+		}
+	}
 	if X.SafetyOff && label == "" {
 		switch kind {
 		case "bounds", "nil", "typeassert", "div", "pre":
@@ -147,6 +160,11 @@ func (X *Exec) oblige(st *State, kind, label, desc string, p token.Pos, goal *Te
 	}
 	if !X.probe {
 		o := &Obligation{Fn: X.TopKey, Kind: kind, Label: label, Pos: X.pos(p), Desc: desc, Hyp: st.PC, Goal: goal}
+		if kind == "bounds" && goal.Op == "and" && len(goal.Args) == 2 && goal.Args[0].Op == "<=" && goal.Args[1].Op == "<" && goal.Args[0].Args[1] == goal.Args[1].Args[0] {
+			// index obligations: the offending index and the length are worth asking the model for
+			o.AuxNames = []string{"idx", "len"}
+			o.AuxVals = []*Term{goal.Args[0].Args[1], goal.Args[1].Args[1]}
+		}
 		X.Obls = append(X.Obls, o)
 	}
 	// continue under the assumption that it holds
@@ -244,7 +262,7 @@ func analyzeCFG(fn *ssa.Function) *cfgInfo {
 func (X *Exec) newFrame(fn *ssa.Function, parent *Frame) *Frame {
 	X.frameSeq++
 	fr := &Frame{ID: X.frameSeq, Fn: fn, Regs: map[ssa.Value]*Val{}, Cells: map[*ssa.Alloc]*Cell{}, Free: map[*ssa.FreeVar]*Val{}, Parent: parent,
-		ParamEntry: map[string]*Val{}, ParamCells: map[string]*Cell{}, edgePC: map[[2]int]*Term{}, callOrd: map[string]int{}}
+		ParamEntry: map[string]*Val{}, ParamCells: map[string]*Cell{}, edgePC: map[[2]int]*Term{}, callOrd: map[string]int{}, Exec: X}
 	if parent != nil {
 		fr.Depth = parent.Depth + 1
 	}
@@ -360,6 +378,7 @@ func (X *Exec) enterLoop(fr *Frame, li *loopInfo, st *State) *State {
 		t := X.evalClause(fr, st, inv, nil)
 		X.oblige(st, "inv.entry", inv.Label, fmt.Sprintf("loop %d of %s invariant #%d holds on entry: %s", li.Ordinal, fnKey, i, inv.Src), li.Head.Instrs[0].Pos(), t)
 	}
+	X.loopEntry[key] = st
 	// houdini candidates
 	if _, ok := X.cands[key]; !ok && !ls.NoHoudini {
 		X.cands[key] = X.genCandidates(fr, li, st)
@@ -436,12 +455,26 @@ func (X *Exec) genCandidates(fr *Frame, li *loopInfo, entry *State) []*Candidate
 		a := a
 		cv := cellVal(a)
 		init := entry.Cells[fr.Cells[a]]
-		if init != nil && init.Op == "int" {
-			k := init
-			out = append(out, &Candidate{Desc: fmt.Sprintf("%s >= %s", a.Comment, k.Int), Alive: true, Eval: func(fr *Frame, st *State) *Term {
+		if init != nil && (init.Op == "int" || init.size <= 12) {
+			k0 := init
+			kd := "its value at loop entry"
+			if k0.Op == "int" {
+				kd = k0.Int.String()
+			}
+			lkey := X.loopKey(fr, li)
+			out = append(out, &Candidate{Desc: fmt.Sprintf("%s >= %s", a.Comment, kd), Alive: true, Eval: func(fr *Frame, st *State) *Term {
 				v := cv(fr, st)
 				if v == nil {
 					return ts.True()
+				}
+				k := k0
+				if k0.Op != "int" {
+					// the entry value is a term of the current run
+					le := fr.Exec.loopEntry[lkey]
+					if le == nil || fr.Cells[a] == nil || le.Cells[fr.Cells[a]] == nil {
+						return ts.True()
+					}
+					k = le.Cells[fr.Cells[a]]
 				}
 				return ts.Ge(v, k)
 			}})
